@@ -19,13 +19,15 @@ KERNELS = ['c01_cfg_cs', 'c01_get_thickness', 'c01_set_thickness', 'c01_image_so
 THEOREMS = ['C01_at_most_one_stop', 'C01_at_most_one_stop_from_empty', 'C01_exactly_one_primary',
             'C01_add_wavelength_appends', 'C01_build_in_order', 'C01_build_thicknesses',
             'C01_set_thickness_refines', 'C01_set_thickness_first_zero', 'C01_set_thickness_thk',
+            'C01_set_thickness_infinite_object',
             'C01_set_thickness_lens', 'C01_set_thickness_frame', 'C01_thickness_last_write_wins',
-            'C01_set_radius_exact_partial', 'C01_set_conic_exact', 'C01_set_asphere_coeff_exact', 'C01_setZ_getZ',
+            'C01_set_radius_exact', 'C01_set_radius_keeps_conic', 'C01_set_conic_exact',
+            'C01_set_asphere_coeff_exact', 'C01_setZ_getZ',
             'C01_set_index_media', 'C01_set_index_readback', 'C01_set_index_frame',
-            'C01_pickup_radius_satisfied', 'C01_pickup_conic_satisfied', 'C01_pickup_thickness_satisfied',
-            'C01_pickups_satisfied_partial',
+            'C01_pickup_radius_satisfied', 'C01_pickup_conic_satisfied', 'C01_conic_pickup_succeeds',
+            'C01_pickup_thickness_satisfied', 'C01_pickups_satisfied_partial',
             'C01_shift_moves_height', 'C01_mrh_solve_correct', 'C01_mrh_kernel_is_shift',
-            'C01_mrh_kernel_places_partial', 'C01_image_solve_focus', 'C01_image_solve_kernel']
+            'C01_mrh_solve_places', 'C01_image_solve_focus', 'C01_image_solve_kernel', 'C01_image_solve_places']
 COQ_TARGETS = ['Model/M_C01_Run.vo', 'Model/Paraxial.vo', 'Lemmas/L_C01_solve.vo', 'Lemmas/L_C01_pickup.vo']
 TRUSTED_BASE = BASE_TRUSTED + [
     'tools/py2coq_c01.py (object lists, constructors, kwargs.get, vector-scalar arithmetic on top of py2coq), validated like the base translator by running every kernel against the real method on real Optic / WavelengthGroup / Pickup / Variable objects',
@@ -43,8 +45,8 @@ RULE = ('histories: object (infinite 60% / finite), 1-12 surfaces appended in in
         'non-trivial = state reached by a call that changed the lens')
 PARTIAL = [
     'pickups: proved for one application (radius, conic, thickness) and for lists of radius pickups in which no later pickup writes an earlier source/target; the unrestricted statement is refuted (F_C01.pickups_satisfied_after_update_refuted, finding update-order)',
-    'marginal-ray-height solve: the offset (h - y)/u_arriving is proved to place the ray (for a fixed launch); the implementation divides by the slope behind the surface, proved correct only when that slope equals the arriving one (mrh_kernel_places_partial); refuted otherwise (finding mrh-solve-slope). Same for image_solve (finding image-solve-slope)',
-    'set_radius changes only the radius is proved for non-flat surfaces; on a flat surface the conic is reset (finding set-radius-plane-drops-conic)',
+    'marginal-ray-height solve / image solve: the repaired kernels are proved to place the ray on every surface behind the first for a FIXED launch ray (mrh_solve_places, image_solve_places; hypothesis: arriving slope != 0); when moving the surfaces changes the launch itself (finite object with the stop moved, imageFNO / objectNA aperture) the one-shot solve misses (finding solve-changes-launch), and several solves / pickups interact through the order of update() (finding update-order)',
+    'set_index next to a mirror leaves the mirror between two media (finding set-index-mirror-media, F_C01.set_index_keeps_mirror_media_refuted); the chain "behind k = in front of k+1" is proved for every set_index',
     'insertion in the middle / removal: only the stop and primary-wavelength invariants are claimed (and proved for all histories)',
     'last-write-wins over arbitrary edit sequences is proved for thicknesses (the non-trivial family); radius / conic / index / coefficient edits are single-field updates by set_*_exact',
 ]
@@ -420,12 +422,14 @@ def _finding_of(w):
     c = w.get('clause')
     op = w.get('op') or []
     if c == 'solve-height':
-        if w.get('powered_surface'):
-            return 'mrh-solve-slope'
-        if w.get('dependency') and w.get('stage') == 'update':
-            return 'update-order'
+        # (the repaired solve is exact for a fixed launch ray: what remains are the two open findings;
+        #  a miss with an unchanged launch and no later solve in front is the D03 regression)
         if w.get('launch_changed'):
             return 'solve-changes-launch'
+        if w.get('dependency') and w.get('stage') == 'update':
+            return 'update-order'
+        if w.get('powered_surface'):
+            return 'mrh-solve-slope'
         return None
     if c == 'image-solve-focus':
         return 'image-solve-slope' if w.get('same_medium') is False else None
